@@ -71,7 +71,7 @@ ASSUMPTIONS = [
     "'search time remains' is read off the code's own account (maximum_search_time of the task at the restart must be > 0) and cross-checked "
     "against the wall clock of the start events with 0.5 s slack",
     "the watchdog (real: 300 s, retry 900 s, and then only if the workers wrote nothing to phases.log for 120 s or more workers were started "
-    "than the budget has seconds; scripted: T + 20 s per sequence, retry x3) stands in for 'does not return'; a timeout that does not "
+    "than the budget has seconds; scripted: T + 30 s per sequence, retry x3) stands in for 'does not return'; a timeout that does not "
     "reproduce is counted as anomaly watchdog-not-reproduced",
     "a worker that hangs without dying blocks get_result for ever (no timeout in the master): the statement quantifies over worker deaths, "
     "so this is recorded as anomaly master-blocks-on-hung-worker, not as a violation",
@@ -711,7 +711,7 @@ def scripted_child(spec_path, out_path):
 # (b) parent side
 # =================================================================================================
 def _bound(case, factor=1):
-    return (max(case["T"], 0) + 20) * factor
+    return (max(case["T"], 0) + 30) * factor
 
 
 def _hang_logged(rec):
